@@ -222,29 +222,19 @@ pub fn needs_parens_in_binop(
             let (child_prec, _child_assoc) = operator_info(child_op);
 
             // Need parentheses if child has lower precedence
-            if child_prec < parent_prec {
-                return true;
+            if child_prec != parent_prec {
+                return child_prec < parent_prec;
             }
 
-            // For same precedence, need parentheses on right side for:
-            // - Right-associative operators (e.g., power)
-            // - Non-associative operators (subtraction, division)
-            if child_prec == parent_prec && !is_left {
-                match parent_assoc {
-                    Assoc::Right => return true,
-                    Assoc::Left => {
-                        // For left-associative operators, right side needs parens for non-associative ones
-                        if matches!(
-                            parent_op,
-                            BinaryOp::Subtract | BinaryOp::Divide | BinaryOp::Modulo
-                        ) {
-                            return true;
-                        }
-                    }
-                }
+            // For same precedence, the parser groups towards the associativity side
+            // (left for every level except power), so the operand on the other side
+            // keeps its own grouping only with parentheses. This holds even for
+            // mathematically associative operators: `a + (b + c)` and `a + b + c`
+            // are different trees and can round differently.
+            match parent_assoc {
+                Assoc::Left => !is_left,
+                Assoc::Right => is_left,
             }
-
-            false
         }
         _ => false,
     }
